@@ -58,13 +58,13 @@ theorem current_available_cards_translated (c : Contract) (s : PState) (hand : L
       = callF (mkRec P 99999) m_PlayingPhase_current_available_cards [encPState c s, encCards hand] := rfl
   rw [run, ← ppObj_base, current_available_call 99979 n_PlayingPhase [] c s hand]; rfl
 
-theorem has_done_translated (c : Contract) (s : PState) :
+theorem play_has_done_translated (c : Contract) (s : PState) :
     P.runMethod n_PlayingPhase n_has_done [encPState c s] = .ok (.bool s.hasDone, encPState c s) := by
   have run : P.runMethod n_PlayingPhase n_has_done [encPState c s]
       = callF (mkRec P 99999) m_PlayingPhase_has_done [encPState c s] := rfl
   rw [run, ← ppObj_base, has_done_call 99991 n_PlayingPhase [] c s]
 
-theorem init_translated_cases (c : Contract) :
+theorem play_init_translated_cases (c : Contract) :
     P.runNew n_PlayingPhase [encContract c] =
       match c.finalBid, c.declarer with
       | none, _ => .error (.exc K.Exception)
@@ -81,9 +81,9 @@ theorem init_translated_cases (c : Contract) :
     | some d => simp only [bind_ok, pure_eq, ppObj_base]
 
 /-- `PlayingPhase(contract)` is the model's initial state -/
-theorem init_translated (c : Contract) (s : PState) (h : PState.init c = some s) :
+theorem play_init_translated (c : Contract) (s : PState) (h : PState.init c = some s) :
     P.runNew n_PlayingPhase [encContract c] = .ok (encPState c s) := by
-  rw [init_translated_cases]; rw [init_eq] at h
+  rw [play_init_translated_cases]; rw [init_eq] at h
   cases hb : c.finalBid with
   | none => rw [hb] at h; cases h
   | some b =>
@@ -92,19 +92,19 @@ theorem init_translated (c : Contract) (s : PState) (h : PState.init c = some s)
     | some d => rw [hb, hd] at h; cases h; rfl
 
 /-- a passed-out contract: `Exception` -/
-theorem init_translated_passed_out (c : Contract) (h : c.finalBid = none) :
+theorem play_init_translated_passed_out (c : Contract) (h : c.finalBid = none) :
     P.runNew n_PlayingPhase [encContract c] = .error (.exc K.Exception) := by
-  rw [init_translated_cases, h]
+  rw [play_init_translated_cases, h]
 
 /-- a bid but no declarer: the assertion fails -/
-theorem init_translated_no_declarer (c : Contract) (b : Fin 35) (h : c.finalBid = some b) (hd : c.declarer = none) :
+theorem play_init_translated_no_declarer (c : Contract) (b : Fin 35) (h : c.finalBid = some b) (hd : c.declarer = none) :
     P.runNew n_PlayingPhase [encContract c] = .error (.exc K.AssertionError) := by
-  rw [init_translated_cases, h, hd]
+  rw [play_init_translated_cases, h, hd]
 
 /-- the model's `none` is exactly "raises" -/
-theorem init_translated_none (c : Contract) (h : PState.init c = none) :
+theorem play_init_translated_none (c : Contract) (h : PState.init c = none) :
     (P.runNew n_PlayingPhase [encContract c]).toOption = none := by
-  rw [init_translated_cases]; rw [init_eq] at h
+  rw [play_init_translated_cases]; rw [init_eq] at h
   cases hb : c.finalBid with
   | none => rfl
   | some b =>
@@ -157,7 +157,7 @@ theorem run_translated_play_from (c : Contract) (s : PState) (h : WF s) (cards :
 theorem run_translated_play (c : Contract) (s : PState) (h : PState.init c = some s) (cards : List Card) :
     (P.runNew n_PlayingPhase [encContract c] >>= fun st => runTranslatedPlay st cards)
       = .ok (encPState c (cards.foldl playCard s)) := by
-  rw [init_translated c s h]
+  rw [play_init_translated c s h]
   exact run_translated_play_from c s (wf_init c s h) cards
 
 /-! ## (d) `play_card_by_player` -/
